@@ -226,10 +226,11 @@ def isclose(a, b):
 def feq(a, b, precision):
     if precision is Nil:
         return math.isclose(a, b)
-    if not (math.isfinite(a) and math.isfinite(b)):
-        return False
     sc = Fraction(10) ** precision
-    return round(Fraction(a) * sc) == round(Fraction(b) * sc)
+    mx = Fraction(sys.float_info.max)
+    if math.isfinite(a) and math.isfinite(b) and abs(Fraction(a) * sc) <= mx and abs(Fraction(b) * sc) <= mx:
+        return round(Fraction(a) * sc) == round(Fraction(b) * sc)
+    return a == b
 
 
 def conforms(S, v) -> bool:
@@ -395,9 +396,20 @@ def oracle_C03(inp):
     S, v = build(inp["schema"]), build(inp["value"])
     fm = Formatter()
     bad = []
-    for e in validate(S, v).get_errors():
+    prefix = []
+    kw = {}
+    if inp.get("path", {}).get("k") == "path" and inp["path"]["keys"]:
+        # the function-level counter-model sits below a non-empty path: validate there; every error
+        # must keep that prefix and its remaining keys must lead from `v` to the reported sub-value
+        kw["path"] = build(inp["path"])
+        prefix = [x for x in kw["path"]]
+    for e in validate(S, v, **kw).get_errors():
+        keys = [x for x in e.path]
+        if keys[:len(prefix)] != prefix:
+            bad.append(f"{type(e).__name__}: path {e.path} lost the prefix {prefix} it was validated under")
+            continue
         try:
-            sub = follow(v, e.path)
+            sub = follow(v, keys[len(prefix):])
         except Exception as x:
             bad.append(f"{type(e).__name__}: path {e.path} does not lead into the value ({x!r})")
             continue
